@@ -2,6 +2,8 @@
 #ifndef VERIF_CASEIO_HPP
 #define VERIF_CASEIO_HPP
 
+#include <cxxabi.h>
+#include <typeinfo>
 #include <cerrno>
 #include <csignal>
 #include <cstdint>
@@ -220,6 +222,15 @@ inline int mainLoop(int argc, char **argv, int timeoutMs,
   }
   fclose(out);
   return 0;
+}
+
+// Name of the dynamic class of an exception object (e.g. "xcmp::CharConstError").
+template <typename T> inline std::string demangled(const T &obj) {
+  int st = 0;
+  char *n = abi::__cxa_demangle(typeid(obj).name(), nullptr, nullptr, &st);
+  std::string r = (st == 0 && n) ? n : typeid(obj).name();
+  free(n);
+  return r;
 }
 
 inline void le32(std::string &s, uint32_t v) {
